@@ -5,6 +5,7 @@ import (
 	"errors"
 	"fmt"
 	"net"
+	"runtime"
 	"strings"
 	"sync"
 	"sync/atomic"
@@ -107,7 +108,19 @@ func (s *rigSvc) body(a *SArgs, rp *SReply) error {
 	return nil
 }
 
-func (s *rigSvc) Do(ctx context.Context, a *SArgs, rp *SReply) error { return s.body(a, rp) }
+func (s *rigSvc) Do(ctx context.Context, a *SArgs, rp *SReply) error {
+	if a.Mode == "push" {
+		// a server-initiated message on the same connection, concurrently with other writers
+		if conn, ok := ctx.Value(server.RemoteConnContextKey).(net.Conn); ok {
+			s.r.s.SendMessage(conn, "push", "p", nil, pushPayload(a.ID, a.Size))
+		}
+	}
+	return s.body(a, rp)
+}
+
+func pushPayload(id, size int) []byte {
+	return []byte(strings.Repeat("p", size) + fmt.Sprint(id))
+}
 
 func (s *rigSvc) Pooled(ctx context.Context, a *PArgs, rp *PReply) error {
 	s.r.markInvoked(a.ID)
@@ -154,7 +167,59 @@ func (p *rigPlugin) PreCall(ctx context.Context, serviceName, methodName string,
 
 func (p *rigPlugin) HandleConnAccept(conn net.Conn) (net.Conn, bool) {
 	atomic.AddInt32(&p.r.accepted, 1)
+	if atomic.LoadInt32(&wrapChunky) != 0 {
+		conn = &chunkyConn{Conn: conn, seed: int64(atomic.AddInt32(&p.r.accepted, 0))}
+	}
 	return conn, atomic.LoadInt32(&rejectAccept) == 0
+}
+
+var wrapChunky int32
+
+// chunkyConn models a transport that splits one Write into several pieces and delays
+// BETWEEN Write calls, never letting another Write in while one is in progress (as the fd
+// write lock of a real net.Conn does).
+type chunkyConn struct {
+	net.Conn
+	mu     sync.Mutex
+	seed   int64
+	writes int64
+}
+
+func (c *chunkyConn) Write(p []byte) (int, error) {
+	c.mu.Lock()
+	n := atomic.AddInt64(&c.writes, 1)
+	x := uint64(c.seed*7919+n*104729) | 1
+	total := 0
+	for len(p) > 0 {
+		x ^= x << 13
+		x ^= x >> 7
+		x ^= x << 17
+		k := 1 + int(x%4096)
+		if x%5 == 0 {
+			k = 1 + int(x%7)
+		}
+		if k > len(p) {
+			k = len(p)
+		}
+		m, err := c.Conn.Write(p[:k])
+		total += m
+		if err != nil {
+			c.mu.Unlock()
+			return total, err
+		}
+		p = p[k:]
+		if x%3 == 0 {
+			runtime.Gosched()
+		}
+	}
+	c.mu.Unlock()
+	// a scheduling delay between this write and the next one
+	if x%4 == 0 {
+		time.Sleep(time.Duration(x%300) * time.Microsecond)
+	} else {
+		runtime.Gosched()
+	}
+	return total, nil
 }
 
 var rejectAccept int32
